@@ -324,6 +324,28 @@ func helperRound(w *kit.World, i int) error {
 	}); !errors.Is(verr, errHelperLookup) {
 		return fmt.Errorf("Db.View returned %v for a callback that returned an error", verr)
 	}
+	if i%5 == 0 {
+		// a batched transaction that fails after its first write (beside the writer and other helpers, whose batches
+		// bbolt may merge with it): the caller gets the error and nothing of it is ever visible
+		doomed := fmt.Sprintf("doomed-%d", i)
+		berr := w.Z.Db.Batch(kit.NewCtx(), func(ctx boltz.MutateContext) error {
+			if err := w.Stores["targets"].Create(ctx, (&kit.EntSpec{Name: "name-of-" + doomed}).ToEnt("targets", doomed)); err != nil {
+				return err
+			}
+			return errHelperLookup
+		})
+		if !errors.Is(berr, errHelperLookup) {
+			return fmt.Errorf("Db.Batch returned %v for a function that returned an error after writing", berr)
+		}
+		var visible bool
+		_ = w.Z.Db.View(func(tx *bbolt.Tx) error {
+			visible = w.Stores["targets"].IsEntityPresent(tx, doomed)
+			return nil
+		})
+		if visible {
+			return fmt.Errorf("entity %s, created by a batched transaction that failed, is visible", doomed)
+		}
+	}
 	st := w.Stores["things"]
 	q, err := ast.Parse(st, fmt.Sprintf(`name = "n%d" and (anyOf(roles) in ["a", "b"] or note != null) sort by name limit %d`, i, i%7))
 	if err != nil {
